@@ -94,6 +94,10 @@ func CmdCheck(cfg RunConfig) int {
 		ls, locked := lock[o.Name]
 		per = append(per, evObl{o.Name, o.Kind, o.Status, o.Result.Solver, o.Result.Ms, o.Pos, o.Src})
 		good := o.Status == "discharged" || o.Status == "cover-sat"
+		if locked && ls == "cover-undecided" {
+			// vacuity guard that the solvers could not decide on the unchanged tree: informational only
+			continue
+		}
 		if !locked {
 			unlocked = append(unlocked, o.Name+" ("+o.Status+")")
 			continue
@@ -213,7 +217,7 @@ func x_reportViolation(cfg RunConfig, pr *Program, o *Obligation) string {
 	model := o.Result.Output
 	if o.Status != "failed-sat" && o.Candidate != "" {
 		model = o.Candidate
-		sb.WriteString("note: the full query (with the quantified axioms of the spec functions) is undecided; the counterexample below is a model of the query without those axioms and is only a candidate until replayed\n")
+		sb.WriteString("note: the exact query is undecided; the counterexample below is a model of a weaker query (" + o.CandidateKind + ") and is only a candidate until replayed\n")
 	}
 	if o.Status == "failed-sat" || o.Candidate != "" {
 		vals := ModelValues(model, o.Inputs, pr)
